@@ -44,6 +44,9 @@ ASSUMPTIONS = ['callbacks are described by what they do (attach MetaData, rename
 
 
 def run(ctx):
+    import interp_types_probe
+
+    interp_types_probe.run(ctx, "C09")
     typed.run_cases(ctx, ctx.n(30, 200), 60, ID)
 
 
